@@ -788,9 +788,9 @@ def _map_key_processor(
                 return kw.keyword(k.name)
         if isinstance(k, sym.Symbol):
             if k.ns is None:
-                return sym.symbol(k.name, ns=namespace)
+                return sym.symbol(k.name, ns=namespace, meta=k.meta)
             if k.ns == "_":
-                return sym.symbol(k.name)
+                return sym.symbol(k.name, meta=k.meta)
         return k
 
     return process_key
